@@ -399,7 +399,14 @@ func (s *Scanner) ScanTopologyExact(topo *topology.FunctionTopology, funcName st
 		return nil, nil
 	}
 
+	// Exact mode means the same topology hash, as in the PebbleDB backend.  Without
+	// this a structurally unrelated signature that happens to score >= 0.99 (same
+	// block count, no required calls) shadows the function's own signature.
+	hash := detection.GenerateTopologyHash(topo)
 	for _, sig := range s.db.Signatures {
+		if sig.TopologyHash != hash {
+			continue
+		}
 		// Using a strict 0.0 tolerance. We are looking for twins, not cousins.
 		result := detection.MatchSignature(topo, funcName, sig, 0.0)
 		if result.Confidence >= 0.99 {
